@@ -175,7 +175,7 @@ class Ctx:
 
     # ---------------------------------------------------------------- translator
     def translate(self):
-        with Lock('coq'):
+        with Lock('translate'):
             rc, out = run([sys.executable, os.path.join(VERIF, 'tools', 'translate.py')], timeout=120,
                           env={'VERIF_GEN': os.path.join(COQ, 'Gen')})
         if rc != 0:
@@ -190,33 +190,98 @@ class Ctx:
         return mine
 
     # ---------------------------------------------------------------- coq
-    def coq_makefile(self):
-        vs = []
-        for d in ('Gen', 'Model', 'Proofs', 'Props'):
-            dd = os.path.join(COQ, d)
-            for f in sorted(os.listdir(dd)):
-                if f.endswith('.v'):
-                    vs.append('%s/%s' % (d, f))
-        proj = open(os.path.join(COQ, '_CoqProject')).read().rstrip('\n')
-        listing = proj + '\n' + '\n'.join(vs) + '\n'
-        lf = os.path.join(COQ, '_CoqProject.files')
-        old = open(lf).read() if os.path.exists(lf) else None
-        if old != listing or not os.path.exists(os.path.join(COQ, 'Makefile')):
-            with open(lf, 'w') as f:
-                f.write(listing)
-            rc, out = run(['coq_makefile', '-f', '_CoqProject.files', '-o', 'Makefile'], cwd=COQ, timeout=60)
-            if rc != 0:
-                raise RuntimeError("coq_makefile failed: " + out)
+    # The Coq project is built by this driver, not by make: per-file locks make concurrent checks safe and only
+    # the closure of the requested files is ever compiled.
+    COQ_FLAGS = ['-q', '-Q', '.', 'RV', '-w', '-notation-overridden,-deprecated-hint-without-locality,-deprecated-instance-without-locality']
 
-    def coq_build(self, targets, timeout=1500):
-        """make the given .vo targets.  Returns (ok, log)."""
-        with Lock('coq'):
-            self.coq_makefile()
-            rc, out = run(['make', '-j16', '-k'] + targets, cwd=COQ, timeout=timeout)
-        return rc == 0, out
+    def coq_deps(self, f):
+        try:
+            src = open(os.path.join(COQ, f)).read()
+        except OSError:
+            return []
+        src = re.sub(r"\(\*.*?\*\)", "", src, flags=re.S)
+        out = []
+        for m in re.finditer(r"From\s+RV\s+Require\s+(?:Import|Export)\s+([^.]*(?:\.[A-Za-z_][\w.]*)*)\s*\.", src):
+            for mod in m.group(1).split():
+                p = mod.replace('.', '/') + '.v'
+                if os.path.exists(os.path.join(COQ, p)) and p not in out:
+                    out.append(p)
+        return out
+
+    def coq_fresh(self, f, deps):
+        vo = os.path.join(COQ, f[:-2] + '.vo')
+        if not os.path.exists(vo):
+            return False
+        t = os.path.getmtime(vo)
+        if t < os.path.getmtime(os.path.join(COQ, f)):
+            return False
+        for d in deps:
+            dvo = os.path.join(COQ, d[:-2] + '.vo')
+            if not os.path.exists(dvo) or os.path.getmtime(dvo) > t:
+                return False
+        return True
+
+    def coq_compile_one(self, f, deps, timeout):
+        """Compile f if stale, under a per-file lock.  Returns (ok, log)."""
+        lockname = 'coq-' + f.replace('/', '_')
+        with Lock(lockname):
+            if self.coq_fresh(f, deps):
+                return True, ''
+            vo = os.path.join(COQ, f[:-2] + '.vo')
+            try:
+                os.remove(vo)
+            except OSError:
+                pass
+            rc, out = run(['coqc'] + self.COQ_FLAGS + [f], cwd=COQ, timeout=timeout)
+            if rc != 0:
+                try:
+                    os.remove(vo)
+                except OSError:
+                    pass
+            return rc == 0, out
+
+    def coq_build(self, files, timeout=1500, jobs=12):
+        """Build the given .v files (paths relative to coq/) and everything they depend on.
+        Returns (ok, log, failed_files)."""
+        import concurrent.futures as cf
+        deps = {}
+        todo = list(files)
+        while todo:
+            f = todo.pop()
+            if f in deps:
+                continue
+            deps[f] = self.coq_deps(f)
+            todo += deps[f]
+        done = {}
+        log = []
+        t_end = time.time() + timeout
+        with cf.ThreadPoolExecutor(max_workers=jobs) as ex:
+            running = {}
+            while len(done) < len(deps):
+                for f in deps:
+                    if f in done or f in running:
+                        continue
+                    if any(done.get(d) is False for d in deps[f]):
+                        done[f] = False
+                        log.append("%s: skipped (a dependency failed)" % f)
+                        continue
+                    if all(done.get(d) for d in deps[f]):
+                        running[f] = ex.submit(self.coq_compile_one, f, deps[f], max(30, t_end - time.time()))
+                if not running:
+                    if len(done) < len(deps):
+                        continue
+                    break
+                fin, _ = cf.wait(list(running.values()), return_when=cf.FIRST_COMPLETED)
+                for f in [k for k, v in running.items() if v in fin]:
+                    ok, out = running.pop(f).result()
+                    done[f] = ok
+                    if not ok:
+                        log.append("%s:\n%s" % (f, out[-3000:]))
+        failed = [f for f in deps if not done.get(f)]
+        return not failed, "\n".join(log), failed
 
     def coq_closure(self, vfile):
-        """RV-internal dependency closure of a .v file (relative to coq/), via coqdep."""
+        """RV-internal dependency closure of a .v file (relative to coq/)."""
         seen = []
         todo = [vfile]
         while todo:
@@ -224,15 +289,7 @@ class Ctx:
             if f in seen:
                 continue
             seen.append(f)
-            try:
-                src = open(os.path.join(COQ, f)).read()
-            except OSError:
-                continue
-            for m in re.finditer(r"From\s+RV\s+Require\s+(?:Import|Export)\s+([^.]*(?:\.[A-Za-z_][\w.]*)*)\s*\.", src):
-                for mod in m.group(1).split():
-                    p = mod.replace('.', '/') + '.v'
-                    if os.path.exists(os.path.join(COQ, p)):
-                        todo.append(p)
+            todo += self.coq_deps(f)
         return seen
 
     def coq_props(self, pid=None, extra_targets=()):
@@ -247,21 +304,13 @@ class Ctx:
             src_nc = re.sub(r"\(\*.*?\*\)", "", src, flags=re.S)
             for m in FORBIDDEN_RE.finditer(src_nc):
                 bad.append("%s: forbidden token %s" % (f, m.group(1)))
-        deps = [f[:-2] + '.vo' for f in closure if f != pv] + list(extra_targets)
-        ok, log = self.coq_build(deps)
-        failed = []
-        for f in closure:
-            if f == pv:
-                continue
-            vo = os.path.join(COQ, f[:-2] + '.vo')
-            if not os.path.exists(vo) or os.path.getmtime(vo) < os.path.getmtime(os.path.join(COQ, f)):
-                failed.append(f)
+        ok, log, failed = self.coq_build([f for f in closure if f != pv] + list(extra_targets))
         theorems = []
         axioms = {}
         plog = ''
         if not failed:
-            with Lock('coq'):
-                rc, plog = run(['coqc', '-Q', '.', 'RV', '-w', '-notation-overridden', pv], cwd=COQ, timeout=900)
+            with Lock('coq-' + pv.replace('/', '_')):
+                rc, plog = run(['coqc'] + self.COQ_FLAGS + [pv], cwd=COQ, timeout=900)
             if rc != 0:
                 failed.append(pv)
             else:
@@ -296,7 +345,7 @@ class Ctx:
                 dis += n
         self.cov['obligations'] += obl
         self.cov['discharged'] += dis
-        self.cov['checker_cmd'] = "make -C coq -j16 <closure of Props/%s.vo> && coqc -Q coq RV coq/Props/%s.v (Print Assumptions audited)" % (pid, pid)
+        self.cov['checker_cmd'] = "coqc -Q coq RV <each file of the closure of Props/%s.v, rebuilt when stale> ; coqc coq/Props/%s.v (Print Assumptions audited)" % (pid, pid)
         self.cov.setdefault('theorems', [])
         self.cov['theorems'] += theorems
         self.cov.setdefault('axioms_used', {}).update({k: v for k, v in axioms.items() if v})
@@ -315,7 +364,7 @@ class Ctx:
         """Thorough tier: re-check the compiled closure of Props/<pid>.vo with the independent checker and
         audit the axioms it reports.  Returns True if fine."""
         pid = pid or self.pid
-        with Lock('coq'):
+        if True:
             rc, out = run(['coqchk', '-o', '-silent', '-Q', '.', 'RV', 'RV.Props.%s' % pid], cwd=COQ, timeout=timeout)
         ok = rc == 0
         m = re.search(r"\* Axioms:(.*?)\n\s*\n\* Constants/Inductives relying on type-in-type:(.*?)\n\s*\n"
